@@ -97,8 +97,10 @@ inline void hook(int kind, const void* obj, std::uint64_t a, std::uint64_t b) {
         for (int i = 0; i < S.n; i++) S.parked[i] = false;       // somebody wrote: every parked thread re-checks
         S.idle = 0;
     } else S.idle++;
-    std::size_t slot = 0;
-    if (S.record) { S.log.push_back({me, kind, obj, a, b, peek}); slot = S.log.size() - 1; }
+    // writes are logged now (the change is done); loads are logged when the thread is resumed, i.e. at the moment the
+    // real access happens, so that the log order is the execution order of the accesses
+    const bool late = is_load_before(kind) && kind != verif::k_cas;
+    if (S.record && !late) S.log.push_back({me, kind, obj, a, b, peek});
     if (kind == verif::k_spin) {
         S.parked[me] = true;
         int nx = choose(me, true);
@@ -124,10 +126,10 @@ inline void hook(int kind, const void* obj, std::uint64_t a, std::uint64_t b) {
     } else nx = choose(me, false);
     if (nx >= 0 && nx != me) handoff(me, nx);
     // resumed (or never left): for loads the real access follows immediately, so the current content is what is read
-    if (S.record && is_load_before(kind) && obj && kind != verif::k_cas) {
+    if (S.record && late) {
         std::uint64_t v = 0; std::size_t sz = (kind == verif::k_load || kind == verif::k_key_load) ? (std::size_t)a : 8; if (sz > 8 || sz == 0) sz = 8;
-        if (kind == verif::k_run_load || kind == verif::k_begin_load) { S.log[slot].peek = 0; }
-        else { memcpy(&v, obj, sz); S.log[slot].peek = v; }
+        if (obj && kind != verif::k_run_load && kind != verif::k_begin_load && kind != verif::k_sleep && kind != verif::k_begin_pre) memcpy(&v, obj, sz);
+        S.log.push_back({me, kind, obj, a, b, v});
     }
 }
 inline bool sleep_hook(std::size_t) { return tid >= 0 && S.active; }   // controlled threads never really sleep
